@@ -12,6 +12,9 @@ mod lru_cache;
 mod page_manager;
 mod region;
 mod savepoint;
+#[cfg(redb_verif)]
+#[allow(clippy::pedantic, dead_code, missing_docs)]
+pub mod verif;
 #[allow(clippy::pedantic, dead_code)]
 mod xxh3;
 
